@@ -53,7 +53,7 @@ def gen_cases(tier, rng):
                           "moves": (["sh"] * n_intf) if seed % 2 else (["sh", "sh"] + ["wf"] * (n_intf - 2))[:n_intf],
                           "kind": "single"})
     # deep random runs, more ensembles/workers, caps, multi-engine, restarts
-    nrand = 110 if quick else 400
+    nrand = 110 if quick else 1200
     for i in range(nrand):
         n_intf = rng.choice([3, 4, 5, 5, 6, 6, 7, 7] if quick else [3, 4, 5, 6, 7, 8])
         w = rng.randint(1, n_intf - 1) if i % 2 else rng.randint(2, min(3, n_intf - 1))
